@@ -282,6 +282,15 @@ VF_MAIN
     VF_ASSERT(!(pre.flags & SSL_FLAGS_ERROR) || (ssl->flags & SSL_FLAGS_ERROR), "c15.tls13_error_sticky");
 #endif
 #ifdef VF_GROUP_C18
+    if (rc == SSL_PROCESS_DATA || rc == SSL_ALERT)
+    {
+        /* hand-off to matrixSslProcessedData, which compacts the input
+           buffer by rec.len + recordHeadLen: that must be exactly what this
+           call consumed, or the following records are misaligned */
+        VF_REACH("handoff");
+
+        VF_ASSERT((uint32) (in - S_inbuf) == (uint32) ssl->rec.len + ssl->recordHeadLen, "c18.tls13_consumed_equals_record_bookkeeping");
+    }
     if (rc == SSL_PARTIAL)
     {
         VF_REACH("partial");
